@@ -18,7 +18,10 @@ RULE = ("per tree shape: (a) raw vs own log2(CPM+1) declared normalised; "
         "cells (125 vectors); (c) every permutation of the 4 (5 thorough) "
         "query gene columns with their names, raw and normalised, bootstrap "
         "factor 0.5 and 1; (d) every subset of 3 extra genes {in reference "
-        "but no marker, not in reference x2} added to normalised input; (e) a "
+        "but no marker, not in reference x2} added to / removed from normalised "
+        "input, under the default memory budget and under max_gb equal to / "
+        "half of the float64 footprint of one round of chunks of the base "
+        "query; (e) a "
         "negative raw value at every (cell, gene) position x {dense, CSR, "
         "CSC} x HDF5 layouts {contiguous, chunk length 1,2,3,5} must raise "
         "and write no results; (f) the same raw counts stored as float64 / "
@@ -226,12 +229,23 @@ def evaluate(case, scratch):
         cfg = {'normalization': 'log2CPM', 'factor': 0.5, 'iterations': 3}
         q0 = scenario.write_query(b, 'log2CPM', 'dense', name='q_x_base.h5ad',
                                   matrix=core_m, genes=base_genes)
-        base = scenario.run_mapping(b, cfg, scratch.new_dir('a'),
-                                    query_path=q0)
-        n_runs += 1
-        if not _ok(base):
-            viol('run-failed', str(base.error))
-        else:
+        # memory budgets: the default, and the footprint of one round of
+        # float64 chunks of the base query exactly / half of it (a chunking
+        # derived from the budget and the NUMBER OF QUERY GENES would move
+        # the cells to other random streams when a gene is added)
+        fit = (scenario.DEFAULT_CFG['n_processors'] * 8 * len(base_genes)
+               * scenario.DEFAULT_CFG['chunk_size']) / 1024**3
+        for bi, budget in enumerate((None, fit, fit / 2)):
+            def edit(config, budget=budget):
+                if budget is not None:
+                    config['max_gb'] = budget
+            btag = 'max_gb=default' if budget is None else f'max_gb={budget:.3e}'
+            base = scenario.run_mapping(b, cfg, scratch.new_dir('a'),
+                                        query_path=q0, config_edit=edit)
+            n_runs += 1
+            if not _ok(base):
+                viol('run-failed', f'{btag}: {base.error}')
+                continue
             rng = np.random.default_rng(case['seed'] + 11)
             pool = extras_all + ['rm:' + g for g in removable]
             for si, sub in enumerate(domains.subsets(pool, min_size=1)):
@@ -249,19 +263,21 @@ def evaluate(case, scratch):
                                       np.round(rng.uniform(0, 12, 3), 3),
                                       axis=1)
                 q = scenario.write_query(
-                    b, 'log2CPM', 'dense', name=f'q_x_{si}.h5ad', matrix=m,
-                    genes=genes)
+                    b, 'log2CPM', 'dense', name=f'q_x_{bi}_{si}.h5ad',
+                    matrix=m, genes=genes)
                 c = scenario.run_mapping(b, cfg, scratch.new_dir('x'),
-                                         query_path=q)
+                                         query_path=q, config_edit=edit)
                 n_runs += 1
                 if not _ok(c):
-                    viol('extra-gene-run-failed', f'{sub}: {c.error}')
+                    viol('extra-gene-run-failed',
+                         f'{btag} {sub}: {c.error}')
                     continue
                 for d in mapcheck.compare_results(
                         base.blob['results'], c.blob['results'], levels,
                         tol=0.0)[:2]:
-                    viol('extra-genes-change-mapping', f'{sub}: {d}')
-                keys.append(f'{shape_s}|extra|{sub}')
+                    viol('extra-genes-change-mapping', f'{btag} {sub}: {d}')
+                keys.append(f'{shape_s}|extra|{btag}|{sub}')
+        if True:
             sample = {'relation': 'extra / removed non-marker genes',
                       'pool': pool}
 
